@@ -450,6 +450,9 @@ func (env *SpecEnv) lookupVar(name string) SV {
 		}
 	}
 	if env.fr.fn == nil {
+		if name == "nil" {
+			return nil
+		}
 		panic("spec: unknown identifier " + name)
 	}
 	// a local variable of the current function by name: a cell, or a heap-allocated (captured) variable whose Alloc
